@@ -7,6 +7,7 @@ From BS Require Import Run.D_C04 Run.D_C18.
 From BS Require Import Run.D_C06.
 From BS Require Run.D_C08.
 From BS Require Run.D_C10 Run.D_C16.
+From BS Require Import Run.D_C12.
 Import ListNotations.
 Open Scope Z_scope.
 
@@ -237,6 +238,7 @@ Definition cmd_history (args : list sexp) : sexp :=
 Definition disp_ext (code : Z) (args : list sexp) : sexp :=
   let nn := code / 1000 in let sub := code mod 1000 in
   match nn with
+  | 12 => disp_c12 sub args
   | 10 => BS.Run.D_C10.disp_c10 sub args
   | 16 => BS.Run.D_C16.disp_c16 sub args
   | 8 => BS.Run.D_C08.disp_c08 sub args
